@@ -67,7 +67,7 @@ NATIVE_UNITS = {
                                 "finding": "template-location"},
     "core_eval_witness": {"file": "src/interpreter/interpreter.rs", "source": "core_eval.rs",
                           "modpath": "interpreter::interpreter", "test": "verif_native_core_eval_witness", "role": "witness",
-                          "for_fns": ["eval_expression", "as_boolean", "read_literal", "eval_primitive", "apply_scheme_procedure"]},
+                          "for_fns": ["eval_expression", "as_boolean", "read_literal", "eval_primitive", "apply_scheme_procedure", "apply", "eval_expression_or_definition"]},
     "after_error_witness": {"file": "src/interpreter/interpreter.rs", "source": "vector_builtins.rs",
                             "modpath": "interpreter::interpreter", "test": "verif_native_after_error_witness", "role": "witness", "for_fns": []},
     "tail_arity_panic": {"file": "src/interpreter/interpreter.rs", "source": "tail_arity.rs",
@@ -265,7 +265,7 @@ PROPS = {
         "assumptions": ["library_map registers every builtin body with its own parameter list (axiom_builtin_table)"],
     },
     "C01": {
-        "verus": ["interp_eval_value", "interp_tail_value", "interp_apply"], "kani": [], "native": ["core_eval_witness"],
+        "verus": ["interp_eval_value", "interp_tail_value", "interp_apply", "base_pairs_apply", "interp_toplevel"], "kani": [], "native": ["core_eval_witness"],
         "level": "proof",
         "explanation": "The control skeleton of the evaluator only. Interpreter::eval_expression is proved, for expressions of any size, against a "
                        "big-step relation over the expression structure (the same relation as in C08 / C15, here with the clauses about WHICH VALUE "
@@ -277,8 +277,11 @@ PROPS = {
                        "to create ONE fresh frame per call as a child of the frame the procedure was created in (Environment::new_child(closure)) and to define every "
                        "parameter and internal definition, and evaluate every internal definition's value and every body expression, IN THAT FRAME (a ghost "
                        "permission that only new_child grants and that define / eval_expression / eval_tail_expression demand), the last body expression in tail "
-                       "position. Variable lookup inside a frame chain and the binding of the fixed parameters are NOT proved: "
-                       "for them there is only the witness grid core_eval_witness (70 programs over the core forms with the value R7RS assigns: lexical scope, "
+                       "position. The builtin apply (unit base_pairs_apply): (apply proc a1 ... an list) applies proc, through apply_procedure, to exactly a1 ... an "
+                       "followed by the elements of list. Top-level statements (unit interp_toplevel): Interpreter::eval_expression_or_definition yields the value of an "
+                       "expression statement in the frame given; a definition evaluates its expression in that frame and binds the name to exactly that value in "
+                       "THAT frame (a history fact on define) and yields no value. Variable lookup inside a frame chain and the binding of the fixed parameters are NOT proved: "
+                       "for them there is only the witness grid core_eval_witness (83 programs over the core forms with the value R7RS assigns: lexical scope, "
                        "fixed / rest parameters, define sugar, operands evaluated once, internal definitions, higher-order procedures, apply), a test, not a proof.",
         "unverified": ["variable lookup and assignment (LexicalScope::get / set over Rc<RefCell<HashMap<String, Value>>>): no contract -- `innermost binding` is not proved",
                        "the binding of the fixed parameters (an FnMut closure over the argument iterator inside apply_scheme_procedure: replaced by a wrapper with an ASSUMED "
@@ -286,7 +289,8 @@ PROPS = {
                        "an `if` in tail position (eval_tail_expression / eval_owned_tail_expression): decided under C02 (tail_post), not repeated here",
                        "`every operand evaluated exactly ONCE`: a relation over results cannot count evaluations; the multiplicity rests on the ASSUMED contract of "
                        "slice.iter().map(f).collect() (f applied once per element, in order) and is otherwise only tested by the grid",
-                       "the builtin `apply` and apply_procedure's meaning (an uninterpreted relation apply_rel here; its arity / trampoline contracts are C08 / C02)",
+                       "apply_procedure's meaning (an uninterpreted relation apply_rel here; its arity / trampoline contracts are C08 / C02); the elements of a list "
+                       "(list_items: pair.rs IntoIter, ASSUMED)",
                        "termination of eval_expression (exec_allows_no_decreases_clause: evaluation need not terminate)"],
         "assumptions": ["std slice.iter().map(f).collect::<Result<_>>() applies f to the elements in order and stops at the first Err",
                         "Ref<Value>::clone / derive(Clone) on SchemeProcedure are structural"],
